@@ -50,7 +50,8 @@ Definition sb_facts_set_guard (F : sb_facts) (uncond : bool) (cond : list (sb_na
      sbf_getfield_checked := sbf_getfield_checked F; sbf_ref_get_checked := sbf_ref_get_checked F;
      sbf_indexer_noinit := sbf_indexer_noinit F; sbf_frame_inherit := sbf_frame_inherit F;
      sbf_userfunc_unsafe := sbf_userfunc_unsafe F; sbf_var_import_checked := sbf_var_import_checked F;
-     sbf_purity := sbf_purity F |}.
+     sbf_purity := sbf_purity F;
+     sbf_ctor_global := sbf_ctor_global F |}.
 Definition sb_facts_member_exempt : sb_facts := sb_facts_set_guard sb_cur_facts false [(sb_n_Set, SbGcUnlessMember)].
 
 Definition sb_n_X := Eval vm_compute in sb_enc "X".
